@@ -356,6 +356,17 @@ class Exec(Interp):
         h(self, st, cm, it, node)
 
     # loops -----------------------------------------------------------------------------------
+    def loop_ordinal(self, st, node) -> int:
+        fr = self.frame(st)
+        if fr.fi is None:
+            return 0
+        loops = [n for n in ast.walk(fr.fi.node) if isinstance(n, (ast.For, ast.While))]
+        loops.sort(key=lambda n: (n.lineno, n.col_offset))
+        for i, n in enumerate(loops):
+            if n is node:
+                return i
+        return -1
+
     def loop_spec(self, st, node) -> LoopSpec | None:
         fr = self.frame(st)
         ordn = None
@@ -508,7 +519,7 @@ class Exec(Interp):
         for n, inv in enumerate(spec.invariant):
             g = self.spec_eval(st, inv, ctx)
             label = inv if isinstance(inv, str) else getattr(inv, "__name__", "inv%d" % n)
-            st.oblige("%s:loop@%d:%s/%d" % (fr.fi.qualname if fr.fi else "?", node.lineno - (fr.fi.node.lineno if fr.fi else 0), phase, n),
+            st.oblige("%s:loop#%d:%s/%d" % (fr.fi.qualname if fr.fi else "?", self.loop_ordinal(st, node), phase, n),
                       g, kind=phase, where="line %s" % node.lineno, info={"clause": label})
 
     def havoc_locals(self, st, node, spec: LoopSpec):
